@@ -687,9 +687,17 @@ func shimStatusOK(s int) bool { return s == 200 || s == 400 || s == 408 || s == 
 func shimSlug(s string) string {
 	s = strings.ToLower(s)
 	var b strings.Builder
-	dash := false
+	dash, num := false, false
 	for _, r := range s {
-		if (r >= 'a' && r <= 'z') || (r >= '0' && r <= '9') {
+		if r >= '0' && r <= '9' { // numbers vary with the input (indices, lengths): one placeholder keeps the signature stable
+			if !num {
+				b.WriteByte('n')
+			}
+			num, dash = true, false
+			continue
+		}
+		num = false
+		if r >= 'a' && r <= 'z' {
 			b.WriteRune(r)
 			dash = false
 		} else if !dash && b.Len() > 0 {
